@@ -1,5 +1,4 @@
-import RlibModel.Lemmas.SegtreeHistory
-import RlibModel.Lemmas.SegtreeItems
+import RlibModel.Lemmas.SegtreeProd
 /-!
 # C01 — segment-tree range query = in-order fold of the logical array
 
@@ -8,7 +7,9 @@ the plain-list `Spec.*`, histories `Seg.run` / `Spec.run`) and `Model/SegtreeIte
 native driver runs).  Lemmas: `Lemmas/Segtree*.lean`.
 
 `Lawful I` is the only assumption on an item: `op` associative, modifiers and pending tags distribute over `op`,
-`merge`/`modify`/`push` act on the observable value as stated.  Nothing is commutative.
+`merge`/`update`/`modify`/`push` act on the observable value as stated.  Nothing is commutative.  `update` is the
+overridable trait method `merge_at` / `rebuild_empty` really call (default: `*self = merge(l, r)`); its law is
+"observes `op (val l) (val r)` and leaves no pending tag, whatever `self` was".
 `den I t` is the logical content of a tree (observable values, left to right, pending tags applied), `WF I t`
 says every cached aggregate is the fold of what is below it, `Shaped t vl vr` that the tree splits `[vl, vr]`
 at `(vl+vr)/2` like the code.
@@ -139,20 +140,37 @@ theorem affHash_lawful : Lawful affHashItem := affHashItem_lawful
 /-- the harness's string-concatenation item with shift / overwrite modifiers -/
 theorem strCat_lawful : Lawful strCatItem := strCatItem_lawful
 
-/-- `Combinator` behaves like its two components run side by side: merges, modifications and therefore every
-    answer of the plain-list specification (hence, by `history_refines`, of the tree) are componentwise. -/
-theorem prod_runs_side_by_side {U B : Type} (I : Item T M A) (J : Item U M B) (z : T × U) (zs : List (T × U)) (m : M) :
-    (prodItem I J).val (zs.foldl (prodItem I J).merge z) =
-      (I.val ((zs.map Prod.fst).foldl I.merge z.1), J.val ((zs.map Prod.snd).foldl J.merge z.2)) ∧
-    (zs.map fun y => (prodItem I J).modify y m) =
-      List.zip ((zs.map Prod.fst).map fun y => I.modify y m) ((zs.map Prod.snd).map fun y => J.modify y m) := by
-  constructor
-  · induction zs generalizing z with
-    | nil => rfl
-    | cons y ys ih => simp only [List.foldl_cons, List.map_cons]; rw [ih]; rfl
-  · induction zs with
-    | nil => rfl
-    | cons y ys ih => simp only [List.map_cons, List.zip_cons_cons, ih]; rfl
+/-- `Combinator` does not forward `update` to its components (it keeps the trait's default): the product's `update` is the
+    componentwise **merge**; for lawful components that observes the same as the components' own `update`. -/
+theorem combinator_update_is_merge {U B : Type} (I : Item T M A) (J : Item U M B) (LI : Lawful I) (LJ : Lawful J)
+    (p l r : T × U) :
+    (prodItem I J).update p l r = (I.merge l.1 r.1, J.merge l.2 r.2) ∧
+    (prodItem I J).val ((prodItem I J).update p l r) = (I.val (I.update p.1 l.1 r.1), J.val (J.update p.2 l.2 r.2)) :=
+  ⟨rfl, by
+    rw [LI.val_update, LJ.val_update]
+    show (I.val (I.merge l.1 r.1), J.val (J.merge l.2 r.2)) = _
+    rw [LI.val_merge, LJ.val_merge]⟩
+
+/-- `Combinator` behaves exactly like its two components run side by side, on the trees, for every history of
+    `set` / `modify` / `ask` / `debug` (in and out of range): the answers of the product tree are the pairs of the answers of
+    the two component trees.  (Searches are excluded: a predicate on the pair need not factor through a component.) -/
+theorem prod_runs_side_by_side {U B : Type} (I : Item T M A) (J : Item U M B) (LI : Lawful I) (LJ : Lawful J)
+    (s : Seg (T × U)) (s1 : Seg T) (s2 : Seg U) (zs : List (T × U))
+    (h : Inv (prodItem I J) s zs) (h1 : Inv I s1 (zs.map Prod.fst)) (h2 : Inv J s2 (zs.map Prod.snd))
+    (ops : List (Op (T × U) M)) (hns : ops.all Op.noSearch = true) :
+    s.run (prodItem I J) ops = Ans.pairs (s1.run I (ops.map Op.proj1)) (s2.run J (ops.map Op.proj2)) :=
+  run_prod I J LI LJ s s1 s2 zs h h1 h2 ops hns
+
+/-- …in particular for the three trees built by `from_slice` from a list of pairs and from its two projections. -/
+theorem prod_runs_side_by_side_from_slice {U B : Type} (I : Item T M A) (J : Item U M B) (LI : Lawful I) (LJ : Lawful J)
+    (zs : List (T × U)) (hz : zs ≠ []) (ops : List (Op (T × U) M)) (hns : ops.all Op.noSearch = true) :
+    ∃ s s1 s2, Seg.fromSlice (prodItem I J) zs = .ok s ∧ Seg.fromSlice I (zs.map Prod.fst) = .ok s1 ∧
+      Seg.fromSlice J (zs.map Prod.snd) = .ok s2 ∧
+      s.run (prodItem I J) ops = Ans.pairs (s1.run I (ops.map Op.proj1)) (s2.run J (ops.map Op.proj2)) := by
+  obtain ⟨s, e, h⟩ := fromSlice_refines (prodItem I J) (prodItem_lawful LI LJ) zs hz
+  obtain ⟨s1, e1, h1⟩ := fromSlice_refines I LI (zs.map Prod.fst) (by simpa using hz)
+  obtain ⟨s2, e2, h2⟩ := fromSlice_refines J LJ (zs.map Prod.snd) (by simpa using hz)
+  exact ⟨s, s1, s2, e, e1, e2, run_prod I J LI LJ s s1 s2 zs h h1 h2 ops hns⟩
 
 /-! ## non-vacuity -/
 
@@ -162,6 +180,28 @@ section examples
 example : affHashItem.act (2, 1) (affHashItem.act (0, 5) (3, 131, 1)) ≠
           affHashItem.act (0, 5) (affHashItem.act (2, 1) (3, 131, 1)) := by decide
 example : affHashItem.op (1, 131, 1) (2, 131, 1) ≠ affHashItem.op (2, 131, 1) (1, 131, 1) := by decide
+
+/-- an in-place `update` for `SumAdd` that recomputes `v`, `len` but keeps `md` (seeded change C01_m1) violates the law -/
+example : ¬ Lawful { sumAddItem with update := fun p l r => ⟨l.v + r.v, l.len + r.len, p.md⟩ } := by
+  intro h
+  have := h.pa_update ⟨0, 0, 1⟩ ⟨0, 0, 0⟩ ⟨0, 0, 0⟩ (0, 1)
+  revert this; decide
+
+/-- a `Combinator::update` that delegates with the second component's arguments swapped (seeded change C01_m2)
+    violates the law as soon as that component's merge is not commutative -/
+example : ¬ Lawful { prodItem affHashItem affHashItem with
+    update := fun p l r => (affHashItem.update p.1 l.1 r.1, affHashItem.update p.2 r.2 l.2) } := by
+  intro h
+  have := h.val_update (affLeaf 0, affLeaf 0) (affLeaf 1, affLeaf 1) (affLeaf 2, affLeaf 2)
+  revert this; decide
+
+/-- product and components side by side on a concrete history -/
+example : ∃ s s1 s2, Seg.fromSlice (prodItem minAddItem maxAddItem) [(⟨3, 0⟩, ⟨3, 0⟩), (⟨1, 0⟩, ⟨1, 0⟩), (⟨4, 0⟩, ⟨4, 0⟩)] = .ok s ∧
+    Seg.fromSlice minAddItem [⟨3, 0⟩, ⟨1, 0⟩, ⟨4, 0⟩] = .ok s1 ∧ Seg.fromSlice maxAddItem [⟨3, 0⟩, ⟨1, 0⟩, ⟨4, 0⟩] = .ok s2 ∧
+    s.run (prodItem minAddItem maxAddItem) [.modify 0 1 10, .ask 0 2, .ask 5 1] =
+      Ans.pairs (s1.run minAddItem [.modify 0 1 10, .ask 0 2, .ask 5 1]) (s2.run maxAddItem [.modify 0 1 10, .ask 0 2, .ask 5 1]) :=
+  prod_runs_side_by_side_from_slice minAddItem maxAddItem minAdd_lawful maxAdd_lawful _ (by simp)
+    [.modify 0 1 10, .ask 0 2, .ask 5 1] (by decide)
 
 /-- a 5-element `MinAdd` tree after two overlapping modifications (hypotheses of `history_refines_from_slice`
     are satisfiable, the conclusion is not trivial) -/
